@@ -320,7 +320,7 @@ def classify(c):
 def obligations(tier):
     q = tier == "quick"
     obs = []
-    for st in (list(range(1, 17)) + [64] if q else list(range(1, 65))):
+    for st in (list(range(1, 17)) + [64] if q else list(range(1, 65)) + [100, 128, 1000, 2 ** 20]):
         obs.append(Obligation(f"int-step{st}", make_int_body(st, False), setup_int, CODE, bounds=dict(low_high_value="unbounded z3 ints, |x|<2^53", step=st),
                               budget_s=300, classify=classify, require_reach=["checked"], describe=f"IntDistribution, step={st}"))
     for st in ([1, 3] if q else [1, 2, 3, 7]):
@@ -341,7 +341,7 @@ def obligations(tier):
     obs.append(Obligation("transform-roundtrip", c10.transform_roundtrip_body, c10.setup_transform01, CODE + [c10.tr._SearchSpaceTransform.transform, c10.tr._SearchSpaceTransform.untransform],
                           bounds=dict(kinds=6, transform_0_1=[True, False]), budget_s=600, classify=classify, require_reach=["roundtrip"],
                           describe="untransform(transform(cfg)) == cfg for configurations on the grid, incl. narrow ranges at large magnitude (shared with C10)"))
-    for n in [1, 2, 3]:
+    for n in ([1, 2, 3] if q else [1, 2, 3, 4, 5]):
         obs.append(Obligation(f"categorical-{n}", make_categorical_body(n), setup_float, CODE, bounds=dict(choices=n, kinds=CHOICE_KINDS), shard_depth=3,
                               budget_s=900, classify=classify, require_reach=["checked"], describe=f"CategoricalDistribution with {n} choices from the type lattice"))
     return obs
